@@ -118,6 +118,22 @@ def attr_fps(obj) -> dict:
     return {k: deepfp_str(v) for k, v in d.items()}
 
 
+def attr_fps_fast(obj) -> dict:
+    """like attr_fps, for change detection on one and the same object at two moments: the C pickler walks the attribute's
+    object graph (identity pattern included, through its memo) far faster than the Python walk; what cannot be pickled falls
+    back to deepfp_str.  The values are only comparable with earlier values of the same object in the same process."""
+    import pickle
+
+    d = odict(obj) or {}
+    out = {}
+    for k, v in d.items():
+        try:
+            out[k] = pickle.dumps(v, 5)
+        except Exception:
+            out[k] = deepfp_str(v)
+    return out
+
+
 def changed_attrs(before: dict, obj) -> list:
     now = attr_fps(obj)
     ch = [k for k in sorted(set(before) | set(now)) if before.get(k) != now.get(k)]
